@@ -470,7 +470,8 @@ func c10run(o *out, c c10cfg) {
 		if derr != nil {
 			decerr = 1
 		}
-	} else if !strings.Contains(err.Error(), "no reference document") {
+	} else if inner.Info().SampleCount != 0 {
+		// an empty collector has nothing to resolve (whatever the error text says); a collector that holds samples must resolve
 		decerr = 1
 	}
 	snapok := 1
